@@ -10,19 +10,34 @@
    outputs.  Every run of the check compares it (and the model's own call log, `Hints.trace_query`)
    with the calls the real engine makes.
 
-   FULL STATEMENT (false of the code as it is, defect F11):
+   STATEMENT (now proved for all well-formed compiled queries):
      forall q r, wf_hints_query q = true -> In r (property_requests q) ->
        snd r = "__typename" \/ In (snd r) (required_of q (fst r)).
-   `required_properties`' third clause scans only the vertex filters of the vertex' own component, so a
-   property needed only as a tag imported into a @fold, or only as the tag operand of a fold-count
-   filter, is resolved but not listed.  Witnesses below; the theorem is proved outside the two classes
-   (and then even without the `__typename` escape). *)
+   It used to be false (defect F11: `required_properties`' third clause scans only the vertex filters of
+   the vertex' own component, so a property needed only as a tag imported into a @fold, or only as the
+   tag operand of a fold-count filter, was resolved but not listed).  F11 is REPAIRED in /repo (commit
+   45c56fc: a fourth clause lists, per fold of the component, the imported context-field tags and the
+   fold-count-filter tag operands pointing at the vertex); the former refutation witnesses are kept as
+   regression Examples, and the two former classes are proved empty. *)
 From TF Require Import Hints HintsProofs.
 Local Open Scope string_scope.
 Local Open Scope N_scope.
 
-(* outside K-imported-tag-not-required and K-count-filter-tag-not-required, every possible request
-   is listed *)
+(* every possible request is listed (even without the __typename escape) *)
+Theorem C05_requested_subset_required_all :
+  forall q, wf_hints_query q = true ->
+    forall r, In r (property_requests q) -> In (snd r) (required_of q (fst r)).
+Proof. exact requested_subset_required_all. Qed.
+Print Assumptions C05_requested_subset_required_all.
+
+(* the statement as worded in the property *)
+Theorem C05_requested_subset_required_unconditional :
+  forall q, wf_hints_query q = true ->
+    forall r, In r (property_requests q) -> snd r = "__typename" \/ In (snd r) (required_of q (fst r)).
+Proof. exact requested_subset_required_unconditional. Qed.
+Print Assumptions C05_requested_subset_required_unconditional.
+
+(* the former conditional forms (kept; their class hypotheses are not needed any more) *)
 Theorem C05_requested_subset_required_outside_known :
   forall q, wf_hints_query q = true ->
     k_imported_tag_not_required q = false -> k_count_filter_tag_not_required q = false ->
@@ -30,13 +45,19 @@ Theorem C05_requested_subset_required_outside_known :
 Proof. exact requested_subset_required_outside. Qed.
 Print Assumptions C05_requested_subset_required_outside_known.
 
-(* the statement as worded in the property (with the __typename escape) *)
 Theorem C05_requested_subset_required :
   forall q, wf_hints_query q = true ->
     k_imported_tag_not_required q = false -> k_count_filter_tag_not_required q = false ->
     forall r, In r (property_requests q) -> snd r = "__typename" \/ In (snd r) (required_of q (fst r)).
 Proof. exact requested_subset_required. Qed.
 Print Assumptions C05_requested_subset_required.
+
+(* the two former known classes (K-imported-tag-not-required, K-count-filter-tag-not-required) are empty *)
+Theorem C05_f11_classes_empty :
+  forall q, wf_hints_query q = true ->
+    k_imported_tag_not_required q = false /\ k_count_filter_tag_not_required q = false.
+Proof. exact f11_classes_empty. Qed.
+Print Assumptions C05_f11_classes_empty.
 
 (* the model of the engine (Exec.v's interpreter threaded with the log of adapter calls,
    Hints.trace_query; tied to the real engine's calls on every run) only ever requests pairs of the
@@ -47,7 +68,14 @@ Theorem C05_logged_requests_are_listed :
 Proof. exact trace_query_requests_listed. Qed.
 Print Assumptions C05_logged_requests_are_listed.
 
-(* ... hence, outside the classes, every resolve_property call of a run is listed *)
+(* ... hence every resolve_property call of a run is listed *)
+Theorem C05_run_requests_required_all :
+  forall re g args q rows evs, wf_hints_query q = true ->
+    trace_query re g args q = Ok (rows, evs) ->
+    forall v p, In (EProp v p) evs -> In p (required_of q v).
+Proof. exact run_requests_required_all. Qed.
+Print Assumptions C05_run_requests_required_all.
+
 Theorem C05_run_requests_required :
   forall re g args q rows evs, wf_hints_query q = true ->
     k_imported_tag_not_required q = false -> k_count_filter_tag_not_required q = false ->
@@ -56,33 +84,33 @@ Theorem C05_run_requests_required :
 Proof. exact run_requests_required. Qed.
 Print Assumptions C05_run_requests_required.
 
-(* F11, first class: a tag imported into a @fold.
+(* regression on the former F11 witness, first class: a tag imported into a @fold.
      query { Thing { name @tag(name: "t") id @output
                      link @fold { name @filter(op: "=", value: ["%t"]) id @output(name: "ids") } } }
-   the engine resolves `name` at vertex 1 when entering the fold; required_properties(1) = [id]. *)
-Theorem C05_requested_subset_required_imported_refuted :
+   the engine resolves `name` at vertex 1 when entering the fold; required_properties(1) is now [id, name]. *)
+Example C05_imported_tag_regression :
   let q := q_of rq_f11a in
     lower_query rq_f11a = Ok q /\ wf_hints_query q = true /\
-    existsb (pair_eqb (1, "name")) (property_requests q) = true /\ mem_str "name" (required_of q 1) = false /\
-    k_imported_tag_not_required q = true /\ k_count_filter_tag_not_required q = false /\
-    has_request (trace_query no_regex (graph_of_dataset ds_f10) [] q) 1 "name" = true.
-Proof. exact requested_subset_required_imported_refuted. Qed.
-Print Assumptions C05_requested_subset_required_imported_refuted.
+    existsb (pair_eqb (1, "name")) (property_requests q) = true /\
+    has_request (trace_query no_regex (graph_of_dataset ds_f10) [] q) 1 "name" = true /\
+    required_of q 1 = ["id"; "name"] /\ k_imported_tag_not_required q = false.
+Proof. exact requested_subset_required_imported_regression. Qed.
+Print Assumptions C05_imported_tag_regression.
 
-(* F11, second class: the tag operand of a fold-count filter.
+(* regression, second class: the tag operand of a fold-count filter.
      query { Thing { score @tag(name: "t") id @output
                      link @fold @transform(op: "count") @filter(op: ">=", value: ["%t"]) { id @output(name: "ids") } } } *)
-Theorem C05_requested_subset_required_count_tag_refuted :
+Example C05_count_filter_tag_regression :
   let q := q_of rq_f11b in
     lower_query rq_f11b = Ok q /\ wf_hints_query q = true /\
-    existsb (pair_eqb (1, "score")) (property_requests q) = true /\ mem_str "score" (required_of q 1) = false /\
-    k_count_filter_tag_not_required q = true /\ k_imported_tag_not_required q = false /\
-    has_request (trace_query no_regex (graph_of_dataset ds_f10) [] q) 1 "score" = true.
-Proof. exact requested_subset_required_count_tag_refuted. Qed.
-Print Assumptions C05_requested_subset_required_count_tag_refuted.
+    existsb (pair_eqb (1, "score")) (property_requests q) = true /\
+    has_request (trace_query no_regex (graph_of_dataset ds_f10) [] q) 1 "score" = true /\
+    required_of q 1 = ["id"; "score"] /\ k_count_filter_tag_not_required q = false.
+Proof. exact requested_subset_required_count_tag_regression. Qed.
+Print Assumptions C05_count_filter_tag_regression.
 
-(* non-vacuity: a query with a tag used in the same component, a fold with outputs and an output
-   satisfies the hypotheses, makes requests, and they are all listed *)
+(* non-vacuity: a query with a tag used in the same component and outputs satisfies the hypothesis,
+   makes requests, and they are all listed *)
 Example C05_hypotheses_satisfiable :
   let q := q_of rq_f10 in
     wf_hints_query q = true /\ k_imported_tag_not_required q = false /\
